@@ -351,9 +351,9 @@ def gen_program(rng, backend: str, initial) -> list:
 # =====================================================================
 # driving the implementation
 # =====================================================================
-def wire_cmd(tag: bytes, op) -> bytes:
+def wire_cmd(tag: bytes, op, w=None) -> bytes:
     k = op[0]
-    w = U.wire_name
+    w = w or U.wire_name
     if k == 'create':
         return tag + b' CREATE ' + w(op[1]) + b'\r\n'
     if k == 'delete':
